@@ -178,3 +178,57 @@ def ob_f_shared(ob):
     """an unrestricted singlet reproduces the restricted answer (and a molecule its stand-alone answer) only if each spin block is diagonalised with the orbital layout of its own molecule"""
     ob.note("this obligation is the one registered as C03.e; it is also decided here because an unrestricted singlet reproduces the restricted answer (and a molecule its stand-alone answer) only if each spin block is diagonalised with the orbital layout of its own molecule")
     _C03_mod.ob_e(ob)
+
+
+def replay_scf_bookkeeping(driver, c0, c1, c2):
+    from . import scfsim as X
+
+    bad = X.bookkeeping_violations(driver, c0, c1, c2)
+    for b in bad[:4]:
+        print("  ", b)
+    return bool(bad)
+
+
+@obligation(PID, "g", title="SCF drivers under partial convergence (fixed mixing, adaptive mixing, adaptive + Pulay): at every density step the Fock matrices of the still-active molecules arrive together with the atom counts and occupation numbers of the same molecules, and the convergence flags returned are those of the schedule — for every order in which the molecules of a batch converge")
+def ob_g(ob):
+    from seqm.seqm_functions import scf_loop as SL
+    from engine import chrun
+
+    ob.encodes(SL.scf_forward0, SL.scf_forward1, SL.scf_forward2)
+    ob.bound("batch of 3 molecules; the iteration at which each molecule converges is a symbolic int in [1,6] (every relative order, ties, and one molecule never converging within the iteration cap of 8 for Pulay's longer start-up); three drivers")
+    ob.assume("Fock build, density step and convergence test are recorders; the DIIS linear algebra of the Pulay driver runs for real on the recorder's matrices")
+    pre = "from harness import scfsim as X\n"
+    slices = []
+    for drv in (0, 1, 2):
+        sl = chrun.Slice("S%d" % drv, pre, "c0: int, c1: int, c2: int", "1 <= c0 <= 6 and 1 <= c1 <= 6 and 1 <= c2 <= 6", "return X.bookkeeping_violations(%d, c0, c1, c2) == []" % drv, "_", 300)
+        sl.meta = dict(driver=drv)
+        slices.append(sl)
+    tw = chrun.Slice("twin_scf", pre, "c0: int, c1: int, c2: int", "1 <= c0 <= 6 and 1 <= c1 <= 6 and 1 <= c2 <= 6", "return X.bookkeeping_violations(2, c0, c1, c2) == [] and not (c0 == 2 and c1 == 5 and c2 == 3)", "_", 300)
+    tw.meta = dict(driver=2)
+    res = chrun.run_slices(slices + [tw], jobs=8)
+    for sl, r in zip(slices + [tw], res):
+        ob.paths += 1
+        ob.ch_conditions += 1
+        ob.ch_definite += r["verdict"] in ("confirmed", "counterexample")
+        if sl.name == "twin_scf":
+            if r["verdict"] != "counterexample":
+                raise HarnessError("twin_scf: expected the planted counterexample, got %s" % r["verdict"])
+            continue
+        ob.sample({"slice": sl.name, "pre": sl.pre, "verdict": r["verdict"], "seconds": r["seconds"], "call": r.get("call")})
+        if r["verdict"] == "confirmed":
+            ob.discharged(sl.name)
+        elif r["verdict"] == "counterexample":
+            vals = chrun.parse_int_args(r["args"])
+            kw = dict(driver=sl.meta["driver"], c0=vals[0], c1=vals[1], c2=vals[2])
+            print("counterexample from CrossHair:", r["call"])
+            from . import scfsim as X
+
+            bad = X.bookkeeping_violations(**kw)
+            if bad:
+                ob.violation("SCF driver %d, molecules converging at iterations (%d, %d, %d): %s" % (kw["driver"], kw["c0"], kw["c1"], kw["c2"], bad[0][:260]), {"module": "harness.C04", "func": "replay_scf_bookkeeping", "args": kw})
+            else:
+                raise HarnessError("SCF bookkeeping counterexample did not reproduce: %s" % r["call"])
+        elif r["verdict"] == "inconclusive":
+            ob.inconclusive(sl.name)
+        else:
+            raise HarnessError("crosshair failed on %s:\n%s" % (sl.name, r["raw"][-1000:]))
